@@ -201,3 +201,29 @@ PROPS["C15"] = {
          "only_tiers": ["thorough"], "fuzztime": {"thorough": "120s"}, "workers": 16, "timeout": {"thorough": 900}},
     ],
 }
+
+RS = "internal/app/referenceserver"
+RC = "internal/app/referenceclient"
+
+PROPS["C17"] = {
+    "level": "exploration",
+    "rule": ("RawHTTPResponse / RawHTTPRequest definitions by construction: status unset or 200-599, header and trailer lists (repeated names, multiple values), body absent / unary / stream of 0-5 items with flags 0-255 (and >255, which must be rejected), explicit length equal to, below or above the payload or absent, binary/text/Any payloads, each of the 6 compressions; "
+             "Encoders: WriteRawMessageContents/WriteRawStreamContents decoded with an independent envelope parser and third-party decompressors; Arbiter: sequences of Header().Set/Write/WriteHeader/Flush/setRawResponse in any order through the rawResponder middleware vs a two-absorbing-state model (handler mode must equal the unwrapped handler, raw mode must emit exactly the definition); "
+             "E2E: a reference server started through the exported RunInReferenceMode is asked over real HTTP/1.1 and h2c by a plain HTTP client (unary, client-stream, server-stream, bidi request carrying the raw response) and the plain client checks status, headers, trailers, exact body and absence of any handler output; "
+             "RawRequest: the exported reference client is given a raw request and a plain recording server checks method, path, per-name query values (existing, raw, encoded +/- base64), listed headers, absence of the built request's headers/body, exact body. "
+             "Non-trivial: stream with >=2 items of which one has an explicit length != payload or a non-identity compression; trailers present; an operation sequence with both a handler write and setRawResponse; a URI query combined with extra params."),
+    "assumptions": ["status codes that forbid a body (1xx, 204, 304) are outside the domain",
+                    "header and trailer name sets are disjoint and avoid names net/http manages itself (Content-Length, Transfer-Encoding, Connection, Trailer, Date)",
+                    "an item with explicit length AND a non-identity compression is generated only as the last stream item (its wire size is not predictable)",
+                    "the handler sets a raw response at most once"],
+    "units": [
+        {"name": "C17Encoders", "pkg": INT, "test": "TestVerifC17Encoders", "kind": "rapid",
+         "checks": {"quick": 6000, "thorough": 100000}, "shards": {"quick": 2, "thorough": 8}},
+        {"name": "C17Arbiter", "pkg": RS, "test": "TestVerifC17Arbiter", "kind": "rapid",
+         "checks": {"quick": 6000, "thorough": 100000}, "shards": {"quick": 2, "thorough": 8}},
+        {"name": "C17E2E", "pkg": RS, "test": "TestVerifC17E2E", "kind": "rapid",
+         "checks": {"quick": 3000, "thorough": 30000}, "shards": {"quick": 2, "thorough": 8}},
+        {"name": "C17RawRequest", "pkg": RC, "test": "TestVerifC17RawRequest", "kind": "rapid",
+         "checks": {"quick": 1500, "thorough": 20000}, "shards": {"quick": 2, "thorough": 8}},
+    ],
+}
